@@ -10,6 +10,8 @@ import (
 	"sync"
 	"time"
 
+	rhp4 "go.sia.tech/core/rhp/v4"
+
 	"verif/harness/lab/rhpmitm"
 	"verif/harness/mon"
 	"verif/harness/vcli"
@@ -100,7 +102,7 @@ func dirOf(s string) rhpmitm.Dir {
 
 // customMut lets a scenario implement operators the generic walker does not
 // know (re-signing with the host key, ...). It returns false if not applicable.
-type customMut func(m *rhpmitm.Msg, mu mutation) bool
+type customMut func(m *rhpmitm.Msg, mu mutation, seen *recorded) bool
 
 // faultHook builds the hook that applies muts. donor provides the messages of
 // another exchange for "swap"/"replace-donor". The delivered (post-mutation)
@@ -123,7 +125,7 @@ func faultHook(muts []mutation, donor *recorded, custom customMut, ap *applied) 
 			ap.mu.Lock()
 			ap.Hit++
 			ap.mu.Unlock()
-			a, ok := applyMutation(m, mu, donor, custom)
+			a, ok := applyMutation(m, mu, donor, custom, ap.seen)
 			if !ok {
 				ap.mu.Lock()
 				ap.Miss++
@@ -169,7 +171,7 @@ func faultHook(muts []mutation, donor *recorded, custom customMut, ap *applied) 
 }
 
 // applyMutation applies one mutation to a message.
-func applyMutation(m *rhpmitm.Msg, mu mutation, donor *recorded, custom customMut) (rhpmitm.Action, bool) {
+func applyMutation(m *rhpmitm.Msg, mu mutation, donor *recorded, custom customMut, seen *recorded) (rhpmitm.Action, bool) {
 	if mu.Path != "" || mu.Kind != "" {
 		if m.Err != nil || m.Obj == nil {
 			return rhpmitm.Forward, false
@@ -182,7 +184,8 @@ func applyMutation(m *rhpmitm.Msg, mu mutation, donor *recorded, custom customMu
 	}
 	switch mu.Op {
 	case "rpcerror":
-		m.Err = &rhp4err
+		e := rhp4.RPCError{Code: rhp4.ErrorCodeHostError, Description: "injected by the man-in-the-middle"}
+		m.Err = &e
 		m.Raw = nil
 		return rhpmitm.Forward, true
 	case "cut":
@@ -255,7 +258,7 @@ func applyMutation(m *rhpmitm.Msg, mu mutation, donor *recorded, custom customMu
 		clear(m.Raw)
 		return rhpmitm.Forward, true
 	}
-	if custom != nil && custom(m, mu) {
+	if custom != nil && custom(m, mu, seen) {
 		return rhpmitm.Forward, true
 	}
 	return rhpmitm.Forward, false
